@@ -37,6 +37,7 @@ GEN_SPEC = {"items": [
     {"kind": "calls", "file": _P, "func": "subConn.healthy", "as": "healthy_calls"},
     {"kind": "calls", "file": _P, "func": "subConn.load", "as": "load_calls"},
     {"kind": "calls", "file": _P, "func": "p2cPickerBuilder.Build", "as": "build_picker_calls"},
+    {"kind": "calls", "file": _P, "func": "newBuilder", "as": "newbuilder_calls"},
     # client wiring (rpc/internal/client.go)
     {"kind": "const", "file": _P, "name": "Name"},
     {"kind": "calls", "file": _C, "func": "NewClient", "as": "newclient_calls"},
@@ -69,7 +70,8 @@ RULE = ("histories of 8-60 pick/done/advance steps over n in {0,1,2,3,4,5,8} rea
         "overlapping / disjoint / empty ready sets on the registered picker builder, picks, completions and advances "
         "interleaved over all live pickers, every live picker dumped after every step; plus client-wiring cases: "
         "NewClient with every single exported ClientOption, every option before/after WithTransportCredentials and random "
-        "sequences (0-8 options, repeats, full permutations) against 2-3 in-process grpc backends behind direct:///, "
+        "sequences (0-8 options, repeats, full permutations) against 2-3 in-process grpc backends behind direct:///a,b[,c] or behind a "
+        "comma-less target of a manual resolver (Timeout set or not, blocking or not), "
         "300 calls each")
 TRUSTED = ["math.Exp: w is taken from the driver (same Go expression, in-package) and only checked against "
            "0 <= w <= 1, td > 0 -> w < 1, td = 0 -> w = 1 on every value used",
@@ -92,7 +94,7 @@ ASSUMPTIONS = ["each Pick and each done func is atomic in the executable model (
 
 START = 3600 * 10 ** 9
 FAIL_CODES = [4, 12, 13, 14, 15]
-OK_CODES = [-1, -1, -1, 0, 1, 2, 3, 5, 6, 7, 8, 9, 10, 11, 16, -2]
+OK_CODES = [-1, -1, -1, 0, 1, 2, 3, 5, 6, 7, 8, 9, 10, 11, 16, 16, 17, 17, 100, 100, 1000, -2]   # incl. codes above the named range
 S = 10 ** 9
 MS = 10 ** 6
 
@@ -264,7 +266,7 @@ def _force_case(rng):
             np_ += 1
         elif r < 0.65 and outstanding:
             k = outstanding.pop(rng.randrange(len(outstanding)))
-            c = rng.choice([-1, -1, -1, 14])
+            c = rng.choice([-1, -1, 17, 100, 16, 14])
             ops.append({"op": "done", "k": k, "code": c})
         else:
             ops.append({"op": "adv", "dt": rng.choice([S, S + 1, S - 1, S // 2, S // 2 + 1, S // 3, 2 * S, 10 * MS, 1, 0, 700 * MS])})
@@ -381,6 +383,7 @@ def _client_case(rng, kinds=None):
         if rng.random() < 0.3:
             kinds = rng.sample(CLI_KINDS, len(CLI_KINDS))       # a permutation of all of them
     return {"kind": "client", "backends": rng.choice([2, 2, 3]), "calls": 300,
+            "target": rng.choice(["direct", "manual"]),
             "opts": [_cli_opt(rng, k, tags) for k in kinds]}
 
 
@@ -388,12 +391,16 @@ def _client_cases(rng, n):
     out = [_client_case(rng, [])]
     for k in CLI_KINDS:                                         # every option alone
         out.append(_client_case(rng, [k]))
+    for kinds in ([], ["timeout"], ["nonblock"], ["timeout", "nonblock"], ["nonblock", "timeout", "creds"]):
+        c = _client_case(rng, kinds)                            # comma-less target, Timeout set or not, blocking or not
+        c["target"] = "manual"
+        out.append(c)
     for a in CLI_KINDS:                                         # every option before / after credentials
         out.append(_client_case(rng, [a, "creds"]))
         out.append(_client_case(rng, ["creds", a]))
     while len(out) < n:
         out.append(_client_case(rng))
-    return out[:max(n, 19)]
+    return out[:max(n, 24)]
 
 
 def _answer_error_case(rng):
@@ -457,7 +464,7 @@ def _multi_case(rng):
                 p = rng.choice(cand)
                 k = outstanding[p].pop(rng.randrange(len(outstanding[p])))
                 ops.append({"op": "done", "p": p, "k": k,
-                            "code": rng.choice(FAIL_CODES) if rng.random() < 0.35 else rng.choice(OK_CODES)})
+                            "code": rng.choice(FAIL_CODES) if rng.random() < 0.35 else rng.choice(OK_CODES + [16, 17, 100])})
         else:
             ops.append({"op": "adv", "dt": _dt(rng) if rng.random() < 0.5 else rng.choice([MS, 30 * MS, S // 2, S + 1])})
     while built < nb:
@@ -577,8 +584,8 @@ def _encode_client(case, obs):
     for l in obs.get("labels") or []:
         labels.append(cZ(-2 if l == "svc" else int(l[1:]) if l.startswith("u") else -1))
     failed = bool(obs.get("dial_err")) or "error" in obs or "driver_panic" in obs
-    return "CC (mkccase %s %s %s %s %s %s %s %s %s %s)" % (
-        cnat(case["backends"]), clist(xs), cZ(case["calls"]), clist(labels), cbool(failed),
+    return "CC (mkccase %s %s %s %s %s %s %s %s %s %s %s)" % (
+        cnat(case["backends"]), cbool(case.get("target") == "manual"), clist(xs), cZ(case["calls"]), clist(labels), cbool(failed),
         _cs(obs.get("svc", "")), _cs(obs.get("balancer", "")), clist([cZ(x) for x in obs.get("counts") or []]),
         cZ(obs.get("calls", 0)), cZ(obs.get("errs", 0)))
 
@@ -619,7 +626,7 @@ def _encode_multi(case, obs):
             cZ(st["idx"]), cZ(st["id"]), cZ(_ERR.get(st["err"], 2)), cZ(st["used"]), cZ(st["over"]), cZ(st["conn"]),
             cZ(st["td"]), cZ(st["wbits"]), cZ(st["now"]), clist(delta), cZ(st["stamp"]))
         steps.append("(%s, %s)" % (m, o))
-    return "CM (mkmcase %s %s)" % (cZ(case["start"]), clist(steps))
+    return "CM (mkmcase %s %s %s)" % (cZ(case["start"]), cZ(obs.get("healthcheck", -1)), clist(steps))
 
 
 def encode(case, obs):
@@ -677,7 +684,7 @@ def _w(bits):
 def bucket(case, obs):
     if case.get("multi"):
         builds = [o["ready"] for o in case["ops"] if o["op"] == "build"]
-        out = ["multi:builds=%d" % len(builds)]
+        out = ["multi:builds=%d" % len(builds), "multi:healthcheck=%s" % obs.get("healthcheck")]
         for a in range(len(builds)):
             for b in range(a + 1, len(builds)):
                 sa, sb = set(builds[a]), set(builds[b])
@@ -689,7 +696,8 @@ def bucket(case, obs):
             out.append("multi:old-picker-used-after-later-build")
         return sorted(set(out))
     if case.get("kind") == "client":
-        out = ["client:backends=%d" % case["backends"], "client:opts=%d" % len(case["opts"])]
+        out = ["client:backends=%d" % case["backends"], "client:opts=%d" % len(case["opts"]),
+               "client:target=" + case.get("target", "direct")]
         out += ["client:opt:" + o["o"] for o in case["opts"]]
         out.append("client:balancer=" + str(obs.get("balancer")))
         if obs.get("counts") and min(obs["counts"]) == 0:
